@@ -1,6 +1,7 @@
 # C09 Channel memory budgets: never exceeded, never leaked, fully returned after drain — structural clauses
 import re
 from sa.rules import *
+from sa.rules import MIRROR, NEGATE
 
 SR, SU = "channel::reliable::SendChannelReliable", "channel::unreliable::SendChannelUnreliable"
 RR, RU = "channel::reliable::ReceiveChannelReliable", "channel::unreliable::ReceiveChannelUnreliable"
@@ -64,6 +65,16 @@ def rules(t):
                 f = g.fn
                 cand = [(s, a) for s, k, a in stores if s.fn is f and k == "sub" and (f.dominates(s.bb, g.bb) or f.dominates(g.bb, s.bb))]
                 r.site(g, f"shrink {cont}")
+                if not cand:
+                    # the release sits behind a merge of several removal arms (`let m = match order { A => take_a(..), B => take_b(..) }?; usage -= m.len()`):
+                    # every path from this removal's Some/Ok edge to the return passes a release (the same test as C09.f)
+                    subs_f = [(s_, a_) for s_, k_, a_ in stores if s_.fn is f and k_ == "sub"]
+                    e_ = t.result_edges(f, g)
+                    start_ = (e_[0][0], len(f.blocks[e_[0][0]]["stmts"])) if e_ else pos(g)
+                    avoid_ = {(e_[1][0], e_[1][1])} if e_ and e_[0][1] != e_[1][1] else set()
+                    if subs_f and must_pass(f, start_, {pos(s_) for s_, _ in subs_f} | err_exits(f), avoid_edges=avoid_)[0]:
+                        for s_, _ in subs_f: used.add((s_.fn.path, s_.bb, s_.idx))
+                        continue
                 if not cand: r.bad(f"{f.path}|shrink|{cont}", g, f"{cont} shrinks without memory_usage_bytes -= size"); continue
                 for s, a in cand:
                     used.add((s.fn.path, s.bb, s.idx))
@@ -158,12 +169,32 @@ def rules(t):
             if not ("receive_unreliable_channels" in recv and ("values_mut" in recv or "iter_mut" in recv)): r.bad("recv", c, "discard not applied to every unreliable receive channel")
     if not dc: r.bad("missing", None, "update() does not discard stale fragments")
     d = t.fn("ReceiveChannelUnreliable::discard_incomplete_old_slices")
-    cmpc = [x for x in t.sites(d) if x.node["k"] == "call" and "PartialOrd" in callee_name(x.node)]
-    for x in cmpc:
-        r.site(x)
-        if method_of(callee_name(x.node)) != "ge" or "Sub" not in fmt(t.arg(x, 0)) + callee_name(x.node) and "sub" not in fmt(t.arg(x, 0)): r.bad("pred", x, "stale-fragment predicate changed (expected now - last >= 3 s)")
-    rm = {fld: [fmt(t.arg(x, 1)) for x in t.effects(fld, {"remove"}, d)] for fld in ("slices", "slices_last_received")}
-    if not rm["slices"] or rm["slices"] != rm["slices_last_received"]: r.bad("keys", None, "slices and slices_last_received are not shrunk with the same key")
+    # the staleness predicate, however it is spelled: removal only on edges where `now - last >= H` holds (H a constant), i.e. not on `< H`
+    is_age_ = lambda a: ("Duration" in fmt(a) and ("::sub(" in fmt(a) or " Sub " in fmt(a))) and "current_time" in fmt(a)
+    any_ = lambda b: True
+    stale_e = [e for e, br in rel_edges(t, d, is_age_, any_, "Ge")]
+    fresh_e = [e for e, br in rel_edges(t, d, is_age_, any_, "Lt")]
+    for g2 in fn_and_closures(t, d):
+        if g2 is d: continue
+        o0 = strip(resolved(t, g2.origin_of_local(0), g2)); neg_ = False
+        while isinstance(o0, tuple) and o0[0] == "un" and o0[1] == "Not": neg_ = not neg_; o0 = strip(o0[2])
+        c0 = t.norm_cond(o0)
+        if c0[0] == "cmp" and (is_age_(c0[2]) or is_age_(c0[3])):
+            op_ = c0[1] if is_age_(c0[2]) else MIRROR[c0[1]]
+            if neg_: op_ = NEGATE[op_]
+            r.site(Site(g2, 0, 0, g2.blocks[0]["term"]), "predicate closure"); stale_e.append(("closure", op_))
+    for x in [br for e, br in rel_edges(t, d, is_age_, any_, "Ge")] + [br for e, br in rel_edges(t, d, is_age_, any_, "Lt")]: r.site(Site(d, x["bb"], 0, d.blocks[x["bb"]]["term"]), "staleness test")
+    weird = [br for rel_ in ("Gt", "Le") for e, br in rel_edges(t, d, is_age_, any_, rel_) if not any(b2 is br for r2 in ("Ge", "Lt") for e2, b2 in rel_edges(t, d, is_age_, any_, r2))]
+    if (not stale_e and not fresh_e) or weird or any(isinstance(e, tuple) and e and e[0] == "closure" and e[1] not in ("Ge", "Lt") for e in stale_e): r.bad("pred", None, "stale-fragment predicate changed (expected now - last >= 3 s)")
+    # both maps shrink with the same key: a removal on one map is matched by a removal on the other in the same iteration (remove / remove_entry / pop_first)
+    def shr(fld):
+        out_ = [x for x in t.effects(fld, {"remove", "remove_entry", "pop_first"}, d)]
+        out_ += [x for x in t.calls(r"OccupiedEntry.*::(remove|remove_entry)$", d) if fld in fmt(t.arg(x, 0))]
+        return out_
+    rs_, rt_ = shr("slices"), shr("slices_last_received")
+    keyed = lambda xs: [fmt(t.arg(x, 1)) for x in xs if len(x.node["args"]) > 1]
+    same_keys = bool(rs_) and bool(rt_) and (keyed(rs_) == keyed(rt_) or any(re.search(r"remove_entry|pop_first|OccupiedEntry", callee_name(x.node)) for x in rt_) and all(re.search(r"remove_entry\(|pop_first\(|first_entry\(", k_) for k_ in keyed(rs_)))
+    if not same_keys: r.bad("keys", None, "slices and slices_last_received are not shrunk with the same key")
     out.append(r)
 
     r = RuleResult("C09.e", "who may write memory_usage_bytes (closed list)", floor=10)
@@ -186,7 +217,15 @@ def err_exits(f):
         for k, s in enumerate(b["stmts"]):
             if s["k"] == "assign" and s["place"]["local"] == 0 and not s["place"]["proj"] and s["rv"]["k"] == "aggr" and s["rv"].get("vname") == "Err": pts.add((b["i"], k))
         tm = b["term"]
-        if tm["k"] == "call" and "from_residual" in callee_name(tm) and tm["dest"]["local"] == 0: pts.add((b["i"], len(b["stmts"])))
+        if tm["k"] == "call" and "from_residual" in callee_name(tm):
+            d_ = tm["dest"]["local"]
+            # straight into the return place, or into the return value of an inlined helper that is handed on unchanged (`_0 = move d`, or `?` again)
+            fwd = d_ == 0 or any(s2["k"] == "assign" and s2["place"]["local"] == 0 and not s2["place"]["proj"] and s2["rv"]["k"] == "use" and s2["rv"]["op"]["k"] in ("copy", "move") and s2["rv"]["op"]["place"]["local"] == d_ and not s2["rv"]["op"]["place"]["proj"] for _bb, _k, s2 in f.sites())
+            if not fwd:
+                # `helper(..)?` in the caller: the helper's Err result goes through Try::branch + from_residual once more
+                for _bb, _k, s2 in f.sites():
+                    if s2["k"] == "call" and callee_name(s2).endswith("Try>::branch") and s2["args"] and s2["args"][0]["k"] in ("copy", "move") and s2["args"][0]["place"]["local"] == d_: fwd = True
+            if fwd: pts.add((b["i"], len(b["stmts"])))
     return pts
 
 
@@ -281,6 +320,9 @@ def slices_shape(t):
             r.site(c, "constructor removed")
             key = fmt(t.arg(c, 1))
             oth = [g for g in t.effects("slices_last_received", {"remove"}, f) if fmt(t.arg(g, 1)) == key]
+            # the timestamp entry is taken out first and its key is then used on `slices` (`let (id, _) = oldest.remove_entry(); slices.remove(&id)`)
+            if re.search(r"(remove_entry|pop_first)\(", key) and "slices_last_received" in key:
+                oth += [g for g in t.calls(r"OccupiedEntry.*::(remove|remove_entry)$|::pop_first$", f) if "slices_last_received" in fmt(t.arg(g, 0))]
             if not any(f.dominates(g.bb, c.bb) or f.dominates(c.bb, g.bb) for g in oth): r.bad(f"{f.path}|timestamp-left", c, "a reassembly entry is removed from `slices` but its timestamp stays in slices_last_received")
     return r
 
